@@ -109,6 +109,8 @@ def build(spec):
     fl = FLAVORS[spec.get('flavor', 'asan')]
     inc = ['-include', config_h(), '-I' + REPO, '-I' + os.path.join(REPO, 'mtbl'), '-I' + HARNESS,
            '-I' + os.path.join(REPO, 'src')]
+    if not os.path.exists(os.path.join(REPO, 'config.h')):
+        inc.append('-I' + BUILD)          # libmy/my_byteorder.h includes "config.h": let it find the generated fallback
     base = fl['cflags'] + COMMON_CFLAGS + inc
     jobs = []
     hsrc = os.path.join(HARNESS, spec['harness'])
@@ -144,6 +146,8 @@ def build_tool(name):
     """build one of the repository's command line tools (mtbl_dump, mtbl_info, mtbl_verify, mtbl_merge) from the working tree"""
     fl = FLAVORS['fast']
     inc = ['-include', config_h(), '-I' + REPO, '-I' + os.path.join(REPO, 'mtbl')]
+    if not os.path.exists(os.path.join(REPO, 'config.h')):
+        inc.append('-I' + BUILD)
     base = fl['cflags'] + COMMON_CFLAGS + inc
     jobs = [(fl['cc'], base, os.path.join(REPO, 'src', name + '.c'))]
     for s in LIB_SRCS:
